@@ -796,7 +796,19 @@ func (e *Enc) assumeLemma(st *State, l *Lemma) error {
 		}
 		post = And(post, c)
 	}
-	e.fact(Forall(qs, Implies(pre, post)))
+	var pats []string
+	for _, tr := range l.Triggers {
+		var terms []string
+		for _, tx := range tr {
+			tv, err := ec.eval(tx)
+			if err != nil {
+				return fmt.Errorf("%s:%d: trigger: %v", l.File, l.Line, err)
+			}
+			terms = append(terms, tv.T)
+		}
+		pats = append(pats, strings.Join(terms, " "))
+	}
+	e.fact(quant("forall", qs, Implies(pre, post), pats))
 	e.lemmasUsed[l.Name] = true
 	return nil
 }
